@@ -516,8 +516,10 @@ func (w *willMsg) signal(send bool) {
 
 // sendWillLocked sends the will message for the client, this function must be guard by srv.Lock.
 func (srv *server) sendWillLocked(msg *gmqtt.Message, clientID string) {
+	topic := msg.Topic
 	req := &WillMsgRequest{
-		Message: msg,
+		Message:          msg,
+		IterationOptions: defaultIterateOptions(topic),
 	}
 	if srv.hooks.OnWillPublish != nil {
 		srv.hooks.OnWillPublish(context.Background(), clientID, req)
@@ -526,7 +528,12 @@ func (srv *server) sendWillLocked(msg *gmqtt.Message, clientID string) {
 	if req.Message == nil {
 		return
 	}
-	srv.deliverMessage(clientID, msg, defaultIterateOptions(msg.Topic))
+	// deliver what the hook decided: it may have replaced req.Message, not only edited it in place
+	opts := req.IterationOptions
+	if opts.TopicName == topic {
+		opts.TopicName = req.Message.Topic
+	}
+	srv.deliverMessage(clientID, req.Message, opts)
 	if srv.hooks.OnWillPublished != nil {
 		srv.hooks.OnWillPublished(context.Background(), clientID, req.Message)
 	}
